@@ -48,7 +48,7 @@ def run(ctx):
     ctx.cov["rule"] = ("%d statement templates with a quoted region (string literal in both quote kinds, back-quoted name as column / alias / table / function, block and line "
                        "comments) at select-list, predicate, argument, VALUES, SET, DDL and alias positions × pairs of %d quote-free payloads (operators, keywords, comment openers, "
                        "brackets, semicolons, TAB, CR LF, U+3000, non-ASCII, astral, escapes) × all dialects; correspondence on tokens and trees; oracle: (1) the two trees are "
-                       "equal once the payload-bearing leaf is masked, (2) that leaf carries exactly the written text, (3) the printed SQL contains it verbatim, (4) comments "
+                       "equal once the payload-bearing leaf is masked, (2) that leaf carries exactly the written text, (3) the printed SQL contains it verbatim and parses back to the same tree, (4) comments "
                        "leave no trace. distinct_nontrivial = distinct accepted trees" % (len(TEMPLATES), len(PAYLOADS)))
     r = ctx.rng.fork("c06")
     cases = []
@@ -67,7 +67,8 @@ def run(ctx):
     rb, _ = ctx.corr([pfam.req_parse(d, b) for d, _, _, _, _, _, b in cases], stream="parse-b")
     ctx.corr(["L 7 %s" % E.enhex(a) for _, _, _, _, _, a, _ in cases[: n // 3]], cfg=None, stream="lex")
     pr = E.run_impl([pfam.req_print(d, d, a) for d, _, _, _, _, a, _ in cases])
-    for (d, kind, tmpl, p1, p2, a, b), (_, xa, _), (_, xb, _), pa in zip(cases, ra, rb, pr):
+    rt = E.run_impl(["RT %s %s" % (d, E.enhex(a)) for d, _, _, _, _, a, _ in cases])
+    for (d, kind, tmpl, p1, p2, a, b), (_, xa, _), (_, xb, _), pa, rta in zip(cases, ra, rb, pr, rt):
         comment = kind in ("block", "dash", "hash")
         cls = finding_class(d, [p1, p2])
         if cls is None and kind == "bq" and any(p.count(".") == 1 for p in (p1, p2)) and any(k in tmpl for k in ("FROM {R}", "UPDATE {R}", "INTO {R}", "{R}(")):
@@ -91,6 +92,12 @@ def run(ctx):
             fail("payload-not-verbatim", "the written text %r must reach the tree unchanged" % leaf_text(kind, p1)); continue
         if xa.replace(la, "§") != xb.replace(lb, "§"):
             fail("payload-leaks", "replacing the payload must change only that leaf"); continue
+        # … and the printed SQL must carry it in a form that reads back as the same leaf (quoting kept where the payload needs it)
+        if rta.startswith("OK"):
+            verdicts = [v.split("|")[0] for v in rta.split(" ")[1:] if v]
+            badv = [v for v in verdicts if v not in ("ok", "unsupported", "print:NOTSUP", "print:PARSE")]
+            if badv and not (kind == "bq" and any("." in p for p in (p1,))):
+                fail("payload-lost-in-round-trip", "the printed statement must parse back to the same tree (%s)" % badv[0][:80]); continue
         # printed SQL carries the payload verbatim (only checked where the printer accepts the statement)
         if pa.startswith("OK"):
             outs = [x for x in pa.split(" ")[1:] if x.startswith("S:")]
